@@ -814,6 +814,70 @@ def wrap_arm_bodies(toks, log):
     return toks
 
 
+def desugar_str_match(toks, log):
+    """R39: `match SCRUT { "a" => {A}, "b" => {B}, _ => {D} }` whose patterns are all string literals (or `_`) becomes
+    `if SCRUT == "a" {A} else if SCRUT == "b" {B} else {D}` -- the definition of matching a `&str` against literal patterns, first match wins
+    (Verus gives string-literal patterns no meaning). Expects block-bodied single-pattern arms (R25 + R26 have run)."""
+    toks = list(toks)
+    k = 0
+    while k < len(toks):
+        if not (toks[k].kind == 'ident' and toks[k].text == 'match'):
+            k += 1
+            continue
+        # scrutinee: up to the `{` at depth 0
+        d = 0
+        b = k + 1
+        while b < len(toks):
+            t = toks[b]
+            if t.kind == 'punct' and t.text in '([':
+                d += 1
+            elif t.kind == 'punct' and t.text in ')]':
+                d -= 1
+            elif t.kind == 'punct' and t.text == '{' and d == 0:
+                break
+            b += 1
+        if b >= len(toks):
+            break
+        close = match_close(toks, b)
+        scrut = text(toks[k + 1:b]).strip()
+        arms = []
+        i = _next_sig(toks, b)
+        ok = True
+        while i is not None and i < close:
+            pat = toks[i]
+            if not ((pat.kind == 'str') or (pat.kind in ('ident', 'punct') and pat.text == '_')):
+                ok = False
+                break
+            a1 = _next_sig(toks, i)
+            a2 = _next_sig(toks, a1) if a1 is not None else None
+            if a1 is None or a2 is None or not (_is(toks[a1], 'punct', '=') and _is(toks[a2], 'punct', '>')):
+                ok = False
+                break
+            bs = _next_sig(toks, a2)
+            if bs is None or not _is(toks[bs], 'punct', '{'):
+                ok = False
+                break
+            be = match_close(toks, bs)
+            arms.append((pat.text, text(toks[bs:be + 1])))
+            i = _next_sig(toks, be)
+            if i is not None and i < close and _is(toks[i], 'punct', ','):
+                i = _next_sig(toks, i)
+        if not ok or not arms or not any(p != '_' for p, _ in arms) or arms[-1][0] != '_' or any(p == '_' for p, _ in arms[:-1]):
+            k += 1
+            continue
+        out = ''
+        for n_, (p_, body) in enumerate(arms):
+            if p_ == '_':
+                out += ' else ' + body
+            else:
+                out += ('if ' if n_ == 0 else ' else if ') + '%s == %s ' % (scrut, p_) + body
+        log.append(('R39', 'match on %d string-literal patterns written as the chain of equality tests it denotes' % (len(arms) - 1), toks[k].line))
+        toks = toks[:k] + [Tok('subst', '(' + out + ')', toks[k].pos, toks[k].line)] + toks[close + 1:]
+        toks = relex(toks)
+        k = 0
+    return toks
+
+
 def desugar_qmark(toks, log):
     """R27: `EXPR?` -> `(match EXPR { Ok(__v) => __v, Err(__e) => return Err(__e.err_into()) })`
     which is the definition of `?` on Result with `From::from` spelled `err_into` (the unit lists the
